@@ -54,8 +54,23 @@ func unwrapFn(yield bool) encv1.UnwrapKeyFn {
 	}
 }
 
+// failAfter returns its bytes and then a sticky non-EOF error.
+type failAfter struct {
+	data []byte
+	off  int
+}
+
+func (f *failAfter) Read(p []byte) (int, error) {
+	if f.off >= len(f.data) {
+		return 0, errors.New("boom: source failed")
+	}
+	n := copy(p, f.data[f.off:])
+	f.off += n
+	return n, nil
+}
+
 type pipeSpec struct {
-	kind   string // "ED" encrypt then decrypt; "D" decrypt a prepared document
+	kind   string // "ED" encrypt then decrypt; "D" decrypt a prepared document; "EF" encrypt from a source that fails
 	msg    []byte
 	key    string
 	cipher encv1.Cipher
@@ -95,6 +110,20 @@ func decrypt(doc []byte, p pipeSpec) ([]byte, error) {
 
 // runPipe returns "ok" or a description of what went wrong.
 func runPipe(p pipeSpec, prepared []byte) string {
+	if p.kind == "EF" {
+		c := p.cipher
+		r, err := encv1.Encrypt(&failAfter{data: p.msg}, encv1.EncryptOptions{
+			WrapKeyFn: wrapFn(p.yield), KeyName: p.key, Algorithm: encv1.KeyAlgorithmAES256KW, Cipher: &c,
+		})
+		if err != nil {
+			return "encrypt: " + err.Error()
+		}
+		_, err = io.ReadAll(r)
+		if err == nil {
+			return "encrypt stream: source failure swallowed"
+		}
+		return "ok" // the stream reported the source's failure, as it does alone
+	}
 	doc := prepared
 	if p.kind == "ED" {
 		var err error
@@ -108,16 +137,11 @@ func runPipe(p pipeSpec, prepared []byte) string {
 		return err.Error()
 	}
 	if !bytes.Equal(out, p.msg) {
-		return fmt.Sprintf("wrong plaintext: got %d bytes %q", len(out), trunc(out))
+		// (no content in the message: ciphertexts are randomised, and a failure
+		// must replay to the identical message)
+		return fmt.Sprintf("wrong plaintext: got %d bytes that are not this pipeline's message", len(out))
 	}
 	return "ok"
-}
-
-func trunc(b []byte) []byte {
-	if len(b) > 24 {
-		return b[:24]
-	}
-	return b
 }
 
 // prepared documents: built once inside a single sequential model execution
@@ -140,10 +164,10 @@ func prepare(ps []pipeSpec) {
 	})
 }
 
-func mkEnc(a, b pipeSpec) *mc.Exec {
-	res := make([]string, 2)
+func mkEnc(ps ...pipeSpec) *mc.Exec {
+	res := make([]string, len(ps))
 	body := func() {
-		for i, p := range []pipeSpec{a, b} {
+		for i, p := range ps {
 			i, p := i, p
 			mc.GoNamed(fmt.Sprintf("pipe%d", i), func() {
 				res[i] = runPipe(p, prepared[p.String()])
@@ -151,12 +175,13 @@ func mkEnc(a, b pipeSpec) *mc.Exec {
 		}
 	}
 	check := func(e *mc.End) error {
-		for i, n := range []string{"pipe0", "pipe1"} {
+		for i := range ps {
+			n := fmt.Sprintf("pipe%d", i)
 			if !e.Finished(n) {
 				return fmt.Errorf("deadlock: %s did not finish; parked=%v", n, e.Parked())
 			}
 			if res[i] != "ok" {
-				return fmt.Errorf("pipeline %d (%v), which succeeds when run alone, failed next to an independent pipeline: %s", i, []pipeSpec{a, b}[i], res[i])
+				return fmt.Errorf("pipeline %d (%v), which succeeds when run alone, failed next to an independent pipeline: %s", i, ps[i], res[i])
 			}
 		}
 		if !e.AllFinished() {
@@ -298,6 +323,17 @@ func scenarios() []hx.Scenario {
 				Mk:   func() *mc.Exec { return mkEnc(a, b) },
 			})
 		}
+	}
+	// a stream that fails on its source (every error path must leave the shared
+	// pool intact) next to two healthy pipelines
+	ef := pipeSpec{"EF", m1[:7], "key-f", encv1.CipherAESGCM, false}
+	for _, pair := range [][2]pipeSpec{{specs[2], specs[3]}, {specs[0], specs[3]}, {specs[3], specs[3]}} {
+		pair := pair
+		out = append(out, hx.Scenario{
+			Name: fmt.Sprintf("enc %v || %v || %v", ef, pair[0], pair[1]), Class: "enc/v1-shared-buffer-pool", Shards: 8,
+			Opts: mc.Options{Delay: true, MinBound: 2, Bound: 3, MaxSteps: 20000},
+			Mk:   func() *mc.Exec { return mkEnc(ef, pair[0], pair[1]) },
+		})
 	}
 	for _, names := range [][][]string{
 		{{"a"}, {"a"}}, {{"a"}, {"b"}}, {{"a", "b"}, {"b", "a"}}, {{"a"}, {"a"}, {"b"}}, {{"a", "a"}, {"a"}},
